@@ -283,6 +283,15 @@ def _run(plan, log, stats, violation):
         srnd.shuffle(dm_order)
         if not record("distance-arrival-order", scorer_scores(screen, thetas, D, pids, 50, 11, dm_order=dm_order)):
             return
+        # (iii-d) the triple budget equals the number of triples exactly (boundary of "C(n,3) <= budget")
+        from math import comb as _comb
+
+        exact = _comb(n, 3)
+        sc_exact = G.GaussianDBALScorer(max_chunk=50, max_triples=exact)
+        out_exact = sc_exact.score(plates={pid: screen.get_plate(pid) for pid in pids}, distance_matrix=_dm(D), samples=_holder(thetas),
+                                   rng=np.random.default_rng(12), progress_bar=False)
+        if not record("budget-equals-triples", {name_of(screen, int(k)): float(v) for k, v in out_exact.items()}):
+            return
         # (iv) permuted plate dict
         po = list(pids)
         srnd.shuffle(po)
@@ -315,14 +324,15 @@ def _run(plan, log, stats, violation):
         plates = [screen.get_plate(pid) for pid in pids]
         means = [np.stack([np.asarray(t.predict_conditional_mean(p), dtype=float) for t in thetas]) for p in plates]
         varis = [np.stack([np.asarray(t.predict_conditional_variance(p), dtype=float) for t in thetas]) for p in plates]
+        budget = exact if srnd.random() < 0.5 else 5000
         het = G.dbal_fast_gaussian_scoring_heteroscedastic(per_plate_predictions=means, variances=varis, distance_matrix=D,
-                                                           rng=np.random.default_rng(7), max_combos=5000)
+                                                           rng=np.random.default_rng(7), max_combos=budget)
         if not record("entry:heteroscedastic", {name_of(screen, pid): float(v) for pid, v in zip(pids, het)}):
             return
         if plan["mode"] in ("homo", "platehomo"):
             v_homo = np.stack([v[:, 0] for v in varis])  # (n_plates, n_thetas)
             hom = G.dbal_fast_gaussian_scoring_homoscedastic(per_plate_predictions=means, variances=v_homo, distance_matrix=D,
-                                                             rng=np.random.default_rng(8), max_combos=5000)
+                                                             rng=np.random.default_rng(8), max_combos=budget)
             if not record("entry:homoscedastic", {name_of(screen, pid): float(v) for pid, v in zip(pids, hom)}):
                 return
     except Exception as e:
